@@ -137,6 +137,10 @@ def handle (req : Json) : Except String Json := do
     match omdF flDouble 3000 (← ratList (← field req "ps")) (← ratList (← field req "etas")) (← ratList (← field req "losses")) with
     | none => pure (obj [("err", Json.str "TypeError")])
     | some (ws, halted) => pure (obj [("ps", ofList ratToJson ws), ("halted", Json.bool halted)])
+  | "welford" =>
+    let vs ← ratList (← field req "xs")
+    let w := Welford.run flDouble vs
+    pure (obj [("var", ofOpt ratToJson w.var), ("mean", ratToJson w.mean)])
   | "fl" =>
     pure (obj [("fl", ofList ratToJson ((← ratList (← field req "xs")).map flDouble))])
   | _ => throw s!"unknown kind {kind}"
